@@ -101,6 +101,8 @@ def shared_jobs(tier, s0, names=None):
                          {'d': 1, 'range': 'all', 'kinds': ('sched', 'worker')}))
             for w in (1, 3, 4, 16):
                 jobs.append((_scn(n, seed=s0, mode=mode, workers=w), {'d': 0}))
+            jobs.append((_scn(n, 'cont3z', 'max', 2, seed=s0, mode=mode, workers=2), {'d': 0}))
+            jobs.append((_scn(n, 'mixed3', 'max', 2, seed=s0, mode=mode, workers=3), {'d': 0}))
     # (C2) tasks that carry an integer seed, in every mode (the library seeds the generator from it; the task object is
     #      pickled into process workers)        (C3) tie-heavy objectives under the pools
     for n in names:
